@@ -505,7 +505,7 @@ pub fn run(ctx: &mut Ctx) {
     // ---- (a) every word up to a bounded depth over the event alphabet
     crate::props::c04_alpha::run(ctx, &regions_alpha, if thorough { 4 } else { 3 });
     // ---- (c) random histories
-    let cases = ctx.tier.pick(30_000u32, 600_000);
+    let cases = ctx.tier.pick(60_000u32, 600_000);
     let nthreads = ctx.threads as u32;
     ctx.parallel(|ti, _n, st| {
         let f = run_proptest(gen::history_strategy(12), cases / nthreads + 1, seed ^ 0xC04C ^ ((ti as u64) << 36), st, |h, st| {
